@@ -66,6 +66,12 @@ def _events():
     ev("parse(order YMD)", lambda a: P("02/03/04", languages=["en"], settings=a["s"]), {"s": {"DATE_ORDER": "YMD"}})
     ev("parse(fr, no locale order)", lambda a: P("02/03/2015", languages=["fr"], settings=a["s"]), {"s": {"PREFER_LOCALE_DATE_ORDER": False}})
     ev("parse(default languages fr)", lambda a: P("il y a 2 jours", languages=["en"], settings=a["s"]), {"s": {"DEFAULT_LANGUAGES": ["fr"], "RELATIVE_BASE": B}})
+    ev("parse(invalid fr date, default settings)", lambda a: P("32 janvier 2020", languages=a["l"]), {"l": ["fr"]}, core=True)
+    ev("parse(de fails then en)", lambda a: P("12/25/2020", languages=a["l"]), {"l": ["de", "en"]})
+    ev("parse(tl numeric)", lambda a: P("01/02/2020", languages=a["l"]), {"l": ["tl"]})
+    ev("parse(fallback to 2 default languages)", lambda a: P("xyzzy plugh", languages=["en"], settings=a["s"]), {"s": {"DEFAULT_LANGUAGES": ["fr", "en"]}})
+    ev("persistent tl parser, given order, 2 defaults", lambda a: _pp("tl", languages=["tl"], use_given_order=True, settings=a["s"]).get_date_data("01/02/2020 10h30"),
+       {"s": {"DEFAULT_LANGUAGES": ["fr", "en"]}})
     ev("parse(parsers absolute only)", lambda a: P("yesterday", languages=["en"], settings=a["s"]), {"s": {"PARSERS": ["absolute-time"]}})
     ev("parse(en, cache limit 1)", lambda a: P("02/03/2015", languages=["en"], settings=a["s"]), {"s": {"CACHE_SIZE_LIMIT": 1}}, core=True)
     ev("parse(fr, cache limit 1)", lambda a: P("2 mars 2015", languages=["fr"], settings=a["s"]), {"s": {"CACHE_SIZE_LIMIT": 1}}, core=True)
@@ -156,7 +162,7 @@ def _child(task):
         return {"error": traceback.format_exc(), "hist": hist}
 
 
-def _explore(alphabet, depth, extend_alphabet, extend_depth, jobs, deadline, seed, prefix=(), s0=None):
+def _explore(alphabet, depth, extend_alphabet, extend_depth, jobs, deadline, seed, prefix=(), s0=None, extend_from=None):
     """Level-synchronous BFS.  Levels <= depth: ALL histories over `alphabet` (no pruning).  Levels depth+1..extend_depth:
     from every distinct state of the previous level (one representative history), over `extend_alphabet`."""
     ensure()
@@ -217,7 +223,10 @@ def _explore(alphabet, depth, extend_alphabet, extend_depth, jobs, deadline, see
             if lvl <= depth:
                 level_hists = [h + (i,) for h in [tuple(x["hist"]) for x in results] for i in sorted(alphabet)]
             elif lvl <= extend_depth:
-                level_hists = [h + (i,) for h in new_states.values() for i in sorted(extend_alphabet)]
+                # extension levels: from every distinct state (one representative history); in the quick tier only from
+                # states whose history consists of collision-prone events (extend_from)
+                level_hists = [h + (i,) for h in new_states.values() for i in sorted(extend_alphabet)
+                               if extend_from is None or all(x in extend_from for x in h[len(prefix):])]
             else:
                 level_hists = []
     res["states"] = len(res["states"]) + 1
@@ -258,14 +267,15 @@ def run(tier, seed, jobs, deadline, report):
     T = tier == "thorough"
     full = {i for i, e in enumerate(E) if not e["slow"] or T}
     core = {i for i, e in enumerate(E) if e["core"]}
+    all_core = set(core)
     quick_core = {i for i, e in enumerate(E) if e["name"] in (
         "parse(en, cache limit 1)", "parse(fr, cache limit 1)", "parse(de, cache limit 2)", "persistent S1 parser",
-        "search(fr, S1)", "parse(num, en+fr region PF)")}
+        "search(fr, S1)", "parse(num, en+fr region PF)", "parse(invalid fr date, default settings)")}
     if T:
         res = _explore(full, 3, core, 4, jobs, deadline, seed)
     else:
         core = quick_core
-        res = _explore(full, 2, core, 3, jobs, deadline, seed)
+        res = _explore(full, 2, core, 3, jobs, deadline, seed, extend_from=all_core)
     names = [e["name"] for e in E]
     # fork shortcut validated against genuinely fresh interpreters, under other hash seeds
     seeds = [1 + seed % 7] + ([11, 12345] if T else [])
